@@ -79,6 +79,8 @@ Step ==
             /\ stack' = SetTop(Bump(Top)) /\ UNCHANGED <<vis, held, forced>>
        [] e[1] = "F" ->
             /\ forced' = forced \cup {e[2]} /\ held' = held \ {e[2]} /\ UNCHANGED <<vis, stack>>
+       [] e[1] = "Z" ->      \* reset_data(): the object forgets its value (forced stays, the store is untouched)
+            /\ held' = held \ {e[2]} /\ UNCHANGED <<vis, forced, stack>>
        [] e[1] = "DE" ->     \* the request returns: a value is held; a task that held one did nothing at all
             /\ InFrameOf(e[2])
             /\ Top.h => Top.n = 0
